@@ -361,7 +361,7 @@ func c17Random(c *Ctx, idx int) {
 func init() {
 	Register(&Property{
 		ID:            "C17",
-		Rule:          "identity schemata instantiated exhaustively over 17 bases (two of them reach an array of the document through a slice of a string) x 60 selector tails (incl. index literals around the 8-bit boundaries: 127, 128, 200, 255, 256, -128, -129, -256) x 11 filter conditions x 16 documents (nulls, non-containers and empty containers inside projected arrays; two documents with 300-element arrays) plus seeded random instantiations: projection (array, flatten, filter, object, slice) followed by selectors = projected array piped into [*] + selectors; x[*].e = map(&e, x) with nulls removed (x an array); (P).e = P | e; a.b = a | b (a not a projection, a non-null); {k: e}.k = e and [e1,e2,e3] = concatenation of [ei] on a non-null current node; slot rewrites: in generated expressions (core language, builtins, lets, arithmetic) 1-3 expression slots (function arguments, expression-reference bodies, multi-select elements, operands, pipe sides, filter conditions, let bindings and bodies, the whole text) are replaced by (e | @), (@ | e), (let $zz = e in $zz) or (e | @ | @), which keeps the meaning and the evaluation order but breaks the syntactic adjacency that peephole rewrites and fused fast paths key on; the library is compared with itself (values canonically, errors by category); instances on which the identity does not apply are dropped and counted; non-trivial = left-hand side evaluates to a non-null, non-empty value; joins stream: x[*].e == map(&e, x) for join-shaped e (a let bound from the element above a root-anchored filter / projection / sort reading it) over 2..257 elements; the idiom list includes find-record forms (filter on key == literal, project a field that some matches lack, take [0] / [-1] / [%N]); heavy stream: identities evaluated on 80 million node visits in one Search",
+		Rule:          "identity schemata instantiated exhaustively over 17 bases (two of them reach an array of the document through a slice of a string) x 60 selector tails (incl. index literals around the 8-bit boundaries: 127, 128, 200, 255, 256, -128, -129, -256) x 11 filter conditions x 16 documents (nulls, non-containers and empty containers inside projected arrays; two documents with 300-element arrays) plus seeded random instantiations: projection (array, flatten, filter, object, slice) followed by selectors = projected array piped into [*] + selectors; x[*].e = map(&e, x) with nulls removed (x an array); (P).e = P | e; a.b = a | b (a not a projection, a non-null); {k: e}.k = e and [e1,e2,e3] = concatenation of [ei] on a non-null current node; slot rewrites: in generated expressions (core language, builtins, lets, arithmetic) 1-3 expression slots (function arguments, expression-reference bodies, multi-select elements, operands, pipe sides, filter conditions, let bindings and bodies, the whole text) are replaced by (e | @), (@ | e), (let $zz = e in $zz) or (e | @ | @), which keeps the meaning and the evaluation order but breaks the syntactic adjacency that peephole rewrites and fused fast paths key on; the library is compared with itself (values canonically, errors by category); instances on which the identity does not apply are dropped and counted; non-trivial = left-hand side evaluates to a non-null, non-empty value; joins stream: x[*].e == map(&e, x) for join-shaped e (a let bound from the element above a root-anchored filter / projection / sort reading it) over 2..257 elements; the idiom list includes find-record forms (filter on key == literal, project a field that some matches lack, take [0] / [-1] / [%N]); heavy stream: identities evaluated on 80 million node visits in one Search; many-elements stream: 9 pairs of spellings (selectors inside a projection vs after a pipe or parentheses) over 70000 records most of which lack the selected members",
 		MinNontrivial: 2000,
 		Streams: []Stream{
 			{Name: "grid", Setup: c17Setup, N: c17GridN, Run: c17Grid, Exhaustive: true},
